@@ -93,6 +93,32 @@ func runC13(w *World) {
 		w.Probe("bail:" + why)
 		e.FinishRun()
 	}
+	if phase != "burst" && w.Chance(1, 4, "prior-session") {
+		// the peer has had an inbound session before, and that session is over (not
+		// through a protocol error): admission must be what it was for a fresh peer
+		c := dialIn(tp, p.Spec.RemoteIP, dstFor(tp))
+		if _, err := e.Advance(p, c, StEstablished, time.Minute); err != nil {
+			bail("prior-advance")
+			return
+		}
+		switch w.Draw(3, "prior-end") {
+		case 0:
+			c.FIN()
+		case 1:
+			c.RST()
+		default:
+			c.SendSeg(MkNotif(6, byte(w.Draw(9, "prior-cease")), nil))
+			w.Quiesce()
+			if !c.RemoteClosed() {
+				c.FIN()
+			}
+		}
+		w.Quiesce()
+		for _, d := range p.Site.DialList() {
+			d.Taken = true // attempts made (and refused) so far are not the phase's
+		}
+		w.Probe("prior-inbound-session-ended")
+	}
 	switch phase {
 	case "out-pending", "out-opensent", "out-openconfirm", "established-out":
 		p.Site.DialPolicy = nil
